@@ -230,14 +230,8 @@ Definition unq1 (v : list Z) : list Z :=
   | _ => v
   end.
 
-(** Entity.__init__: if v.startswith(dquote) and v.endswith(dquote) then v[1:-1]
-    (a lone double quote becomes the empty string) *)
-Definition unq2 (v : list Z) : list Z :=
-  match v with
-  | 34 :: r => match rv r with [] => [] | 34 :: m => rv m | _ => v end
-  | _ => v
-  end.
-
+(** Entity.__init__ uses the parsed parameter value as it is (the second strip of a leading and
+    trailing double quote it used to apply is gone: fix 6dd6137) *)
 Fixpoint parse_params (segs : list (list Z)) (acc : hdrs) : option hdrs :=
   match segs with
   | [] => Some acc
@@ -313,8 +307,7 @@ Definition mk_meta (h : hdrs) : mst * meta :=
       | MOk =>
         match aget s_filename_star dp with
         | Some _ => (MUnsup, bad)
-        | None => (MOk, Meta (option_map unq2 (aget s_name dp))
-                             (option_map unq2 (aget s_filename dp)) ct ctp)
+        | None => (MOk, Meta (aget s_name dp) (aget s_filename dp) ct ctp)
         end
       | e => (e, bad)
       end
